@@ -4,7 +4,33 @@ TB = ("Trusted base: CPython ast; the mlstatic engine and its transfer tables (d
       "literal attribute names, C3 MRO of the classes as written). Library signatures are those of the "
       "environment the check runs in.")
 
+ALG = ('static analysis: symbolic evaluation (path-forking abstract interpretation) of the MRO-resolved method bodies into a '
+       'canonical matrix/form algebra (non-commutative polynomials, row quadratic forms, linear combinations of distance atoms, '
+       'normalised comparisons) compared with the documented normal form')
+
 CHECKS = {
+ 'C01': dict(
+  technique=ALG,
+  text=('Decides, for all 17 estimators and every fitted model / query point, that pair_distance, score_pairs and the get_metric '
+        'closure normalise to Sqrt(RowQuad(x - x\', W W^T)) - the Euclidean semi-norm of a linear image of the difference of the two '
+        'points of the same pair, with no additive term - and that pair_score is exactly its negation; non-negativity, exact symmetry, '
+        'd(x,x)=0 and the triangle inequality (exact arithmetic) are theorems of that form. Finiteness under overflow and rounding-level '
+        'inequalities are NOT decided.'),
+  note=TB + ' check_input / validate_vector are summarised as value-identities (justified by C06 rules).'),
+ 'C02': dict(
+  technique=ALG + '; sibling agreement of the middle word across views',
+  text=('Decides for all 17 estimators that pair_distance, pair_score, score_pairs, get_metric (plain and squared) and '
+        'get_mahalanobis_matrix share the same matrix word L^T L (so they denote the same function of (x, x\', L)), that transform is '
+        'X L^T with no additive term, that squared=True/False differ by exactly one square root, and that score_pairs returns '
+        'pair_distance after a FutureWarning on every path. Rounding-level equality between views and array-like conversions are NOT decided.'),
+  note=TB + ' check_input / validate_vector are summarised as value-identities (justified by C06 rules).'),
+ 'C04': dict(
+  technique=ALG + ' (comparison operator, slot indices and signs kept exact)',
+  text=('Decides the whole decision rule of ITML/MMC/SDML (pairs), SCML (triplets), LSML (quadruplets) for every tuple including ties: '
+        'decision_function, predict and score normalise to the documented forms over distance atoms D(i,j) and threshold_ '
+        '(+1 iff D(0,1) <= threshold_; D(0,2)-D(0,1) with strict >; sign(D(2,3)-D(0,1)); roc_auc_score(y, -D); mean/2+1/2), and '
+        'set_threshold stores float(threshold) only and returns self. That roc_auc_score computes ROC-AUC is trusted (scikit-learn).'),
+  note=TB + ' Distances themselves are what C01/C02 derive.'),
  'C03': dict(
   technique='static analysis: library-signature conformance of all resolved call sites (inspect), must-pass-through (dominance) and value-identity analysis of every fit by abstract interpretation of the AST',
   text=('Decides structural necessary conditions of C03 for all 17 estimators and every path through fit: every call into '
@@ -43,7 +69,7 @@ CHECKS = {
 
 _PENDING = 'check not built yet in this revision of /verif (see DESIGN.md section 9 build order); nothing is claimed for it'
 NOT_APPLICABLE = {p: _PENDING for p in
-  ['C01','C02','C04','C07','C08','C09','C10','C11','C12','C13','C14','C15','C17','C19','C20']}
+  ['C07','C08','C09','C10','C11','C12','C13','C14','C15','C17','C19','C20']}
 NOT_APPLICABLE['C16'] = ('optimality of a cut-off over a labelled multiset of distances with ties is a property of runtime '
                          'values; no structural necessary condition of it exists that a sound static rule can name without '
                          'also firing on correct tie-aware rewrites; its parameter-validation sentence is checked as C06(7)')
